@@ -66,3 +66,84 @@ fn c17_k_minor_ren() {
   assert!(d.get_minor_ren().get_index() as i64 == want, "minor Ren of the day");
   kani::cover!(m == -12, "minor_ren reachable");
 }
+
+// C02: lunar -> civil: the civil date of lunar day d of a month whose first day number is `first` has day number
+// first + d - 1 (the caller sees only the proved contract of JulianDay::get_solar_time; thorough tier proves that contract)
+#[kani::proof]
+#[kani::stub(alloc::fmt::format, stub_format)]
+#[kani::stub_verified(JulianDay::get_solar_time)]
+fn c02_k_lunar_to_solar() {
+  let d = any_lunar_day();
+  let first = d.get_lunar_month().get_first_julian_day().get_day() as i64;
+  kani::assume(first + d.get_day() as i64 - 1 >= 1721424 && first + d.get_day() as i64 - 1 <= 5373484);
+  let r = d.get_solar_day();
+  assert!(spec::valid_date(r.get_year() as i64, r.get_month() as i64, r.get_day() as i64), "a valid civil date");
+  assert!(spec::jdn(r.get_year() as i64, r.get_month() as i64, r.get_day() as i64) == first + d.get_day() as i64 - 1, "day number == first day of the month + day - 1");
+  let again = d.get_solar_day();
+  assert!(again == r, "the memoised answer is the same answer");
+  kani::cover!(d.get_day() == 30, "lunar_to_solar reachable");
+}
+
+// C07: LunarDay::get_sixty_cycle feeds stem index and branch index N_first + day - 12 to the name lookup
+// (= day number - 11, congruent to day number + 49 modulo 10, 12 and 60). HeavenStem::from_index / EarthBranch::from_index are
+// replaced by recording stubs, SixtyCycle::from_name by a constant: the function body itself is untouched. The lookup
+// (name of stem ++ name of branch -> pillar index by CRT) is the table fact `pillar_name` of c19_attributes.
+use crate::tyme::sixtycycle::verif_k::{rec_stem_from_index, rec_branch_from_index, const_cycle_from_name, REC_STEM, REC_BRANCH, cheap_cycle, faithful_cycle_from_index, faithful_stem_from_index, faithful_branch_from_index};
+#[kani::proof]
+#[kani::stub(alloc::fmt::format, stub_format)]
+#[kani::stub(HeavenStem::from_index, rec_stem_from_index)]
+#[kani::stub(EarthBranch::from_index, rec_branch_from_index)]
+#[kani::stub(SixtyCycle::from_name, const_cycle_from_name)]
+fn c07_k_lunar_day_pillar_args() {
+  let d = any_lunar_day();
+  let first = d.get_lunar_month().get_first_julian_day().get_day() as i64;
+  let _ = d.get_sixty_cycle();
+  let want = first + d.get_day() as i64 - 12;
+  assert!(unsafe { REC_STEM } as i64 == want && unsafe { REC_BRANCH } as i64 == want, "stem and branch index == first day number + day - 12");
+  assert!(spec::emod(want, 60) == spec::pillar_of(first + d.get_day() as i64 - 1), "which is the pillar (day number + 49) mod 60");
+  kani::cover!(d.get_day() == 1, "pillar_args reachable");
+}
+
+
+// ---- C09: hour pillar: the (stem, branch) indices fed to the name lookup, for all 60 day pillars x 24 hours -------------
+static mut SYM_DAY_PILLAR: isize = 0;
+fn stub_day_pillar(_d: &LunarDay) -> SixtyCycle { cheap_cycle(unsafe { SYM_DAY_PILLAR }) }
+#[kani::proof]
+#[kani::unwind(61)]
+#[kani::stub(alloc::fmt::format, stub_format)]
+#[kani::stub(LunarDay::get_sixty_cycle, stub_day_pillar)]
+#[kani::stub(SixtyCycle::from_index, faithful_cycle_from_index)]
+#[kani::stub(HeavenStem::from_index, faithful_stem_from_index)]
+#[kani::stub(EarthBranch::from_index, faithful_branch_from_index)]
+#[kani::stub(SixtyCycle::from_name, const_cycle_from_name)]
+fn c09_k_hour_pillar_args() {
+  let p: isize = kani::any(); let h: usize = kani::any();
+  kani::assume(p >= 0 && p < 60 && h < 24);
+  unsafe { SYM_DAY_PILLAR = p; }
+  let lh = LunarHour { day: any_lunar_day(), hour: h, minute: 0, second: 0, solar_time: RefCell::new(None), sixty_cycle_hour: RefCell::new(None) };
+  let _ = lh.get_sixty_cycle();
+  let hb = ((h as i64 + 1) / 2) % 12;
+  let dp = spec::emod(p as i64 + if h >= 23 { 1 } else { 0 }, 60);          // from 23:00 the next day's pillar
+  assert!(unsafe { REC_BRANCH } as i64 == hb, "hour branch == floor((hour+1)/2) mod 12");
+  assert!(spec::emod(unsafe { REC_STEM } as i64, 10) == spec::emod(spec::five_rats(dp % 10) + hb, 10), "hour stem by the Five-Rats rule from the (rolled) day stem");
+  kani::cover!(h == 23 && p == 59, "hour_pillar reachable");
+}
+
+// ---- C08: lunar month pillar (Five Tigers): indices fed to the name lookup -------------------------------------------------
+#[kani::proof]
+#[kani::unwind(61)]
+#[kani::stub(alloc::fmt::format, stub_format)]
+#[kani::stub(SixtyCycle::from_index, faithful_cycle_from_index)]
+#[kani::stub(HeavenStem::from_index, faithful_stem_from_index)]
+#[kani::stub(EarthBranch::from_index, faithful_branch_from_index)]
+#[kani::stub(SixtyCycle::from_name, const_cycle_from_name)]
+fn c08_k_month_pillar_args() {
+  let y: isize = kani::any(); let idx: usize = kani::any();
+  kani::assume(y >= 0 && y <= 9999 && idx <= 12);
+  let m = mk_month(y, 1, 30, idx, 2451545);
+  let _ = m.get_sixty_cycle();
+  let ys = spec::emod(y as i64 - 4, 60) % 10;
+  assert!(spec::emod(unsafe { REC_BRANCH } as i64, 12) == spec::emod(2 + idx as i64, 12), "month branch: Yin for the first position, then one per position");
+  assert!(spec::emod(unsafe { REC_STEM } as i64, 10) == spec::emod(spec::five_tigers(ys) + idx as i64, 10), "month stem by the Five-Tigers rule from the year stem");
+  kani::cover!(idx == 12, "month_pillar reachable");
+}
